@@ -218,6 +218,11 @@ class Interp:
         if isinstance(st, ast.Expr):
             if isinstance(st.value, ast.Constant):
                 return
+            if isinstance(st.value, (ast.Yield, ast.YieldFrom)):
+                # a generator handler is followed through as straight-line code: what it yields (or delegates to) is evaluated and dropped
+                if st.value.value is not None:
+                    self.eval(st.value.value, env, m)
+                return
             self.eval(st.value, env, m)
             return
         if isinstance(st, ast.Assign):
@@ -356,6 +361,8 @@ class Interp:
                 return env[e.id]
             if e.id in ("True", "False", "None"):
                 return {"True": True, "False": False, "None": None}[e.id]
+            if e.id in getattr(self.sc, "globals", {}):
+                return self.sc.globals[e.id]  # a module-level constant the caller evaluated with the constant evaluator
             return self.global_name(e.id, m)
         if isinstance(e, (ast.List, ast.Tuple)):
             vals = []
@@ -653,6 +660,9 @@ class Interp:
                     args.extend(self.eval(a.value, env, m))
                 else:
                     args.append(self.eval(a, env, m))
+            if fname == "str" and len(args) == 1 and isinstance(args[0], Obj) and args[0].cls is not None and self.repo.lookup(args[0].cls, "__str__") is not None:
+                r_ = self.repo.lookup(args[0].cls, "__str__")
+                return self.call_function(r_[0].module, r_[1], [], {}, self_obj=args[0])
             if fname == "len" and len(args) == 1 and isinstance(args[0], Obj) and args[0].cls is not None and self.repo.lookup(args[0].cls, "__len__") is not None:
                 r_ = self.repo.lookup(args[0].cls, "__len__")
                 return self.call_function(r_[0].module, r_[1], [], {}, self_obj=args[0])
@@ -673,6 +683,23 @@ class Interp:
             if len(e.args) > 1:
                 return self.eval(e.args[1], env, m)
             raise EvalRaise("StopIteration", "")
+        if fname in ("getattr", "hasattr", "setattr") and len(e.args) >= 2:
+            o = self.eval(e.args[0], env, m)
+            name = self.eval(e.args[1], env, m)
+            if not isinstance(name, str):
+                raise AnalysisError(f"circuit evaluation: {fname} with a non-string name")
+            if fname == "setattr":
+                self.assign(ast.Attribute(value=e.args[0], attr=name, ctx=ast.Store()), self.eval(e.args[2], env, m), env, m)
+                return None
+            try:
+                v = self.getattr(o, name, e)
+            except AnalysisError:
+                if fname == "hasattr":
+                    return False
+                if len(e.args) > 2:
+                    return self.eval(e.args[2], env, m)
+                raise
+            return True if fname == "hasattr" else v
         if fname == "isinstance":
             o = self.eval(e.args[0], env, m)
             t = self.eval(e.args[1], env, m)
@@ -714,6 +741,12 @@ class Interp:
                 return isinstance(o, str)
             if n == "tuple":
                 return isinstance(o, tuple)
+            if n == "list":
+                return isinstance(o, list)
+            if n == "dict":
+                return isinstance(o, dict)
+            if n == "GeneratorType":
+                return False  # the modelled collaborators return plain values
         raise AnalysisError(f"circuit evaluation: isinstance against {t!r}")
 
     def apply(self, f, args, kwargs, node, m):
